@@ -1172,6 +1172,28 @@ func main() {
 					emit("case", hc.name, x.rc, q)
 				}
 			}
+			// random paths over a small alphabet (segments "", ".", "..", route words): is the path in canonical form (301 or not)?
+			if c.Name == "all/B" {
+				words := []string{"", "", ".", "..", "ready", "loki", "api", "v1", "labels", "a", "...", ".a", "push"}
+				rq := hx.Rand(f.Seed + 77)
+				seenP := map[string]bool{}
+				for i := 0; i < 400; i++ {
+					var sb strings.Builder
+					for j, n := 0, 1+rq.Intn(5); j < n; j++ {
+						sb.WriteString("/")
+						sb.WriteString(words[rq.Intn(len(words))])
+					}
+					p := sb.String()
+					if seenP[p] {
+						continue
+					}
+					seenP[p] = true
+					hc := byName[[]string{"absent", "absent", "wrong-pass", "right"}[rq.Intn(4)]]
+					q := Req{Method: []string{"GET", "GET", "POST", "OPTIONS"}[rq.Intn(4)], Path: p, HasAuth: hc.has, Auth: hx.Hex(hc.val), Gzip: rq.Intn(2) == 0, HStatus: statuses[k%len(statuses)]}
+					k++
+					emit("case", hc.name, "random-path", q)
+				}
+			}
 			// two Authorization header lines: the decision is taken on the FIRST (Header.Get); a right second line does not help
 			if c.Tier == "rich" {
 				for ti, t := range targets {
